@@ -113,11 +113,16 @@ Definition ext_pk_k (fx : fixes) (schnorr unc : bool) : ext :=
   let '(kbytes, sbytes) := key_sig_bytes (fx_pkk fx) schnorr unc in
   mkExt kbytes false 0 (Some (mkSD sbytes 1 sbytes 1 0)) (Some (mkSD 1 1 1 1 0)) tl_new 0.
 
-(* pk_h(Some pk) / pk_h(None): [unc] is false for RawPkH *)
+(* pk_h(Some pk) *)
 Definition ext_pk_h (fx : fixes) (schnorr unc : bool) : ext :=
   let '(kbytes, sbytes) := key_sig_bytes fx schnorr unc in
   mkExt 24 false 3 (Some (mkSD (kbytes + sbytes) 2 (kbytes + sbytes) 2 0))
         (Some (mkSD (kbytes + 1) 2 (kbytes + 1) 2 0)) tl_new 0.
+(* pk_h(None) (expr_raw_pkh): since /repo 46f3eb21 the key is assumed to be an uncompressed one outside
+   Tap, `(Ecdsa, None) => (66, 73)` (66 in every rule set: the arm does not go through the repaired 65);
+   [ext_pk_h_none_34] is the figure before that commit, kept for the regression example only *)
+Definition ext_pk_h_none (fx : fixes) (schnorr : bool) : ext := ext_pk_h (fx_pkk fx) schnorr true.
+Definition ext_pk_h_none_34 (fx : fixes) (schnorr : bool) : ext := ext_pk_h fx schnorr false.
 
 Definition num_cost (k n : N) : N :=
   match 16 <? k, 16 <? n with
@@ -307,7 +312,7 @@ Fixpoint ext_of_gen (fx : fixes) (c : xctx) (m : ms) : ext :=
   | MFalse => ext_false
   | MPkK k => ext_pk_k fx (xc_schnorr c) (xc_unc c k)
   | MPkH k => ext_pk_h fx (xc_schnorr c) (xc_unc c k)
-  | MRawPkH _ => ext_pk_h fx (xc_schnorr c) false
+  | MRawPkH _ => ext_pk_h_none fx (xc_schnorr c)
   | MMulti k ks | MSortedMulti k ks => ext_multi k (map (xc_unc c) ks)
   | MMultiA k ks | MSortedMultiA k ks => ext_multi_a k (N.of_nat (length ks))
   | MAfter t => ext_after t
